@@ -55,7 +55,7 @@ def _path_task(task):
 
 
 MAX_PATHS_PER_FUNCTION = 60000
-FUNCTION_BUDGET_S = 1500
+FUNCTION_BUDGET_S = 600
 
 
 def verify_all(items, prop, jobs):
@@ -216,6 +216,20 @@ def run_property(prop, tier, seed, args):
             bounded_only.append({"function": label, "reason": r["outside_reach"]})
             fn_rows.append({"function": label, "source_hash": r["source_hash"], "status": "outside reach",
                             "reason": r["outside_reach"]})
+            # nothing is proved about this function on this tree; but a counterexample found on a path that *was*
+            # explored and that fails natively on the real code is a violation all the same (bounded exploration:
+            # only refutations that replay are believed)
+            seen_ = set()
+            for ref in r["refutations"]:
+                key = ref["obligation"]
+                if key in seen_:
+                    continue
+                seen_.add(key)
+                res = _replay_item((r["qualname"], ref["inputs"], [key], prop, ref.get("awaits")))
+                if "error" not in res and any(n_ == key and ok is False for n_, ok, _d in res["judgements"]):
+                    ref = dict(ref)
+                    ref["model"] = str(ref.get("model"))[:1500] + "\n-- found by bounded exploration of a function outside reach; confirmed natively"
+                    handle_refutation(prop, r, ref, res, True, known, baseline, violations, known_lines, undecided)
             continue
         if r["pre_satisfiable"] is False:
             errors.append((r["qualname"], r["case"], "vacuous: precondition unsatisfiable"))
